@@ -14,7 +14,8 @@ from ..common import LCG, V, samples_of, seed_offset
 def compositions(tier, seed):
     cs = [{"gravity": 0.65, "T": 300.0, "cont": [0.03, 0.012, 0.018], "dry": "dry gas"},
           {"gravity": 0.8, "T": 200.0, "cont": [0.0, 0.0, 0.0], "dry": "wet gas"}]
-    cs += [{"gravity": 0.57, "T": 120.0, "cont": [0.0, 0.0, 0.0], "dry": "dry gas"},
+    cs += [{"gravity": 0.95, "T": 95.0, "cont": [0.02, 0.15, 0.03], "dry": "wet gas"},  # cold heavy sour gas, T_r ~ 1.25
+           {"gravity": 0.57, "T": 120.0, "cont": [0.0, 0.0, 0.0], "dry": "dry gas"},
            {"gravity": 1.1, "T": 400.0, "cont": [0.05, 0.01, 0.04], "dry": "wet gas"},
            {"gravity": 0.9, "T": 250.0, "cont": [0.1, 0.0, 0.0], "dry": "dry gas"},
            {"gravity": 0.7, "T": 180.0, "cont": [0.0, 0.05, 0.1], "dry": "wet gas"}]
@@ -112,11 +113,14 @@ def _grid(kind, seed):
 def eval_synth(case):
     from bluebonnet.fluids import fluid as fluid_mod  # noqa: PLC0415
 
-    p = _grid(case["grid"], case["seed"])
+    p = _grid(case["grid"].replace("-desc", ""), case["seed"])
+    if case["grid"].endswith("-desc"):
+        p = p[::-1].copy()  # listed from high to low pressure: values are relative to the first row
     viol = []
     if case["integrand"] == "linear":
         mu, z = np.full_like(p, 0.02), np.full_like(p, 0.9)
         exact = (p**2 - p[0] ** 2) / (0.02 * 0.9)
+        exact_scale = abs(exact[-1])
         tol = 1e-12
     else:
         zf = lambda q: 1 - 3e-5 * q + 4e-9 * q**2  # noqa: E731
@@ -129,19 +133,20 @@ def eval_synth(case):
             xm, xr = 0.5 * (a + b), 0.5 * (b - a)
             s = 5 / 9 * f(xm - xr * np.sqrt(0.6)) + 8 / 9 * f(xm) + 5 / 9 * f(xm + xr * np.sqrt(0.6))
             exact[k + 1] = exact[k] + xr * s
-        h = np.diff(p)
+        exact_scale = abs(exact[-1])
+        h = np.abs(np.diff(p))
         f2 = np.max(np.abs(np.gradient(np.gradient(f(p), p), p)))
-        tol = max(1e-12, 2 * float(np.sum(h**3) / 12 * f2) / exact[-1])  # trapezoid remainder bound (x2)
+        tol = max(1e-12, 2 * float(np.sum(h**3) / 12 * f2) / exact_scale)  # trapezoid remainder bound (x2)
     before = (p.copy(), mu.copy(), z.copy())
     m = np.asarray(fluid_mod.pseudopressure(p, mu, z))
     if not (np.array_equal(before[0], p) and np.array_equal(before[1], mu) and np.array_equal(before[2], z)):
         viol.append(V("standalone/inputs-unmodified", "fluids.pseudopressure modified its inputs", case=case))
     if m.shape != p.shape or m[0] != 0:
         viol.append(V("standalone/zero-at-reference", f"shape {m.shape}, first value {m[0]!r}", case=case))
-    elif not np.all(np.diff(m) > 0):
+    elif not np.all(np.diff(m) * np.sign(p[-1] - p[0]) > 0):
         viol.append(V("standalone/strictly-increasing", "stand-alone transform is not strictly increasing", case=case))
     else:
-        err = float(np.max(np.abs(m - exact)) / exact[-1])
+        err = float(np.max(np.abs(m - exact)) / exact_scale)
         if not err <= tol:
             viol.append(V("standalone/integral", f"stand-alone transform differs from the integral of 2p/(mu z) by "
                           f"{err:.3g} of its range (allowed {tol:.3g}) on the {case['grid']} grid", case=case,
@@ -158,7 +163,8 @@ def cases(tier, seed):
     pmax = 14000.0
     out = [{"kind": "comp", **c, "nodes": nodes, "pmax": pmax} for c in compositions(tier, seed)]
     out += [{"kind": "synth", "grid": g, "integrand": i, "seed": seed}
-            for g, i in itertools.product(["uniform", "geometric", "irregular"], ["linear", "zdip"])]
+            for g, i in itertools.product(["uniform", "geometric", "irregular", "uniform-desc", "irregular-desc"],
+                                          ["linear", "zdip"])]
     return out
 
 
